@@ -7,7 +7,7 @@ from .. import build
 
 import_sismic()
 from sismic.interpreter import Interpreter  # noqa: E402
-from sismic.model import (BasicState, CompoundState, FinalState, InternalEvent, MetaEvent,  # noqa: E402
+from sismic.model import (BasicState, Event, CompoundState, FinalState, InternalEvent, MetaEvent,  # noqa: E402
                           Statechart, Transition)
 from sismic.exceptions import PropertyStatechartError  # noqa: E402
 
@@ -25,7 +25,7 @@ RULE = ('One case = a generated chart (sends with and without delay, notify) + i
         'contained all 7 documented kinds and a notify.')
 ASSUMPTIONS = ["the undocumented, deprecated 'delayed event sent' meta-event is filtered out before comparison",
                'the listener is attached before the property statechart so that it records meta-event k before the property fails']
-REQUIRED_COUNTERS = ['listeners_attached_mid_step', 'attribute_reads_checked', 'cases_with_ticking_clock', 'monitored_copies_checked', 'sent_predicate_reads', 'deprecated_bind_form', 'stream_steps_checked', 'meta_events_checked', 'failfast_runs', 'noninterference_steps',
+REQUIRED_COUNTERS = ['identity_of_parameters_checked', 'listeners_attached_mid_step', 'attribute_reads_checked', 'cases_with_ticking_clock', 'monitored_copies_checked', 'sent_predicate_reads', 'deprecated_bind_form', 'stream_steps_checked', 'meta_events_checked', 'failfast_runs', 'noninterference_steps',
                      'streams_with_all_kinds_and_notify', 'property_time_checks', 'kind_event sent', 'kind_notify',
                      'delayed_sends_seen']
 KINDS = ['step started', 'step ended', 'event consumed', 'event sent', 'state exited', 'state entered', 'transition processed']
@@ -34,7 +34,7 @@ TIERS = dict(quick=dict(steps=25, ks=10, gen=dict(max_states=10, max_depth=4, ma
 
 
 def plan(tier):
-    return dict(cases=1000 if tier == 'quick' else 8000, shards=16, timeout=900 if tier == 'quick' else 3600)
+    return dict(cases=1000 if tier == 'quick' else 5000, shards=16, timeout=900 if tier == 'quick' else 3600)
 
 
 def recording_property(names):
@@ -92,9 +92,54 @@ def norm_log(log):
     return out
 
 
+class Mailbox:
+    """A parameter of sent events that is what it is (a lock, a socket, a reply mailbox): monitors get *it*, not a copy, and
+    nobody copies it on their behalf."""
+
+    def __init__(self):
+        self.copies = 0
+
+    def __copy__(self):
+        return self         # (the context's values are shallow-copied for __old__: documented)
+
+    def __deepcopy__(self, memo):
+        self.copies += 1
+        return self
+
+    def __repr__(self):
+        return 'Mailbox'
+
+
+class EqualRecorder:
+    """A listener that compares equal to every other instance of its class (a dataclass without fields does): two attached
+    instances are two listeners."""
+
+    def __init__(self):
+        self.got = []
+
+    def __eq__(self, other):
+        return isinstance(other, EqualRecorder)
+
+    def __hash__(self):
+        return 7
+
+    def __call__(self, m):
+        if m.name != 'delayed event sent':
+            self.got.append((m.name, freeze(m.data)))
+
+
 class Coder10(build.Coder):
     """State invariants record what the documented sent() predicate answers for the notify names: the monitored run must
-    not depend on whether somebody listens."""
+    not depend on whether somebody listens.  Everything sent carries ref=REF (an object of the context)."""
+
+    def entry(self, ch, n):
+        return build.Coder.entry(self, ch, n).replace('u=U()', 'u=U(), ref=REF')
+
+    def exit(self, ch, n):
+        return build.Coder.exit(self, ch, n).replace('u=U()', 'u=U(), ref=REF')
+
+    def action(self, ch, t):
+        return build.Coder.action(self, ch, t).replace('u=U()', 'u=U(), ref=REF')
 
     def cond(self, ch, owner_is_transition, cid, kind):
         if kind == 'inv' and not owner_is_transition:
@@ -121,7 +166,8 @@ def run_case(acc, rnd, tier, case):
     # one case in five runs on a clock whose value grows with every reading: the time of a step is then whatever
     # Interpreter.time shows afterwards, and 'step started', MacroStep.time and the monitors' clocks must all agree with it
     ticking = rnd.random() < 0.2
-    it = Interpreter(sc, initial_context=pr.context(), clock=ticking_clock() if ticking else None)
+    REF = Mailbox()
+    it = Interpreter(sc, initial_context=pr.context(REF=REF), clock=ticking_clock() if ticking else None)
     it.attach(pr.listener())
     rec = []
     if ticking:
@@ -139,7 +185,15 @@ def run_case(acc, rnd, tier, case):
                 continue
             if got is not vv:
                 attr_problems.append((who, m.name, kk, repr(vv), repr(got)))
+            inner = vv.data.get('ref') if isinstance(vv, Event) else (vv if kk == 'ref' else None)
+            if inner is not None:
+                acc.count('identity_of_parameters_checked')
+                if inner is not REF:
+                    attr_problems.append((who, m.name, 'ref', 'the very object that was sent', 'another object (%r)' % (inner,)))
     it.attach(lambda m: read_attributes(m, 'listener'))
+    twins = [EqualRecorder(), EqualRecorder()]
+    for tw in twins:
+        it.attach(tw)
 
     def R(event, time):
         read_attributes(event, 'property statechart')
@@ -177,6 +231,16 @@ def run_case(acc, rnd, tier, case):
             meta_per_step.append(len([e for e in norm_log(pr.log) if e[0] == 'M']))
             break
         step = r.last_step
+        if twins[0].got != twins[1].got or (o[0] != 'raise' and [x for x in twins[0].got if x[0] == 'step started'] == []):
+            acc.violation('C10:equal-listeners-not-both-served', 'two listeners that compare equal (two instances of one class) are '
+                          'attached: the first received %d meta-events in step %d, the second %d'
+                          % (len(twins[0].got), k, len(twins[1].got)), dict(wit, step=k))
+            return
+        del twins[0].got[:], twins[1].got[:]
+        if REF.copies:
+            acc.violation('C10:parameter-copied', 'step %d: a parameter of a sent event was copied %d times (a bound property '
+                          'statechart that never fails may not change the monitored run)' % (k, REF.copies), dict(wit, step=k))
+            return
         if attr_problems:
             who, mname, kk, vv, got = attr_problems[0]
             acc.violation('C10:documented-attribute-unreadable', "step %d: attribute %r of meta-event '%s' (value %s) read by a %s as "
@@ -265,7 +329,7 @@ def run_case(acc, rnd, tier, case):
     # ---- (3) non-interference -------------------------------------------------------------------------
     sc2, tmap2 = build.build_api(ch, coder=CODER10)
     pr2 = Probes(val=make_val(valseed, p_true))
-    it2 = Interpreter(sc2, initial_context=pr2.context(), clock=ticking_clock() if ticking else None)
+    it2 = Interpreter(sc2, initial_context=pr2.context(REF=REF), clock=ticking_clock() if ticking else None)
     r2 = Runner(it2, tmap2, log=pr2.log)
     k2 = 0
     for op in script:
@@ -303,7 +367,7 @@ def run_case(acc, rnd, tier, case):
             cum += n
         sc3, tmap3 = build.build_api(ch, coder=CODER10)
         pr3 = Probes(val=make_val(valseed, p_true))
-        it3 = Interpreter(sc3, initial_context=pr3.context(), clock=ticking_clock() if ticking else None)
+        it3 = Interpreter(sc3, initial_context=pr3.context(REF=REF), clock=ticking_clock() if ticking else None)
         it3.attach(pr3.listener())
         cnt = [0]
 
@@ -355,7 +419,7 @@ def run_case(acc, rnd, tier, case):
         as_property = rnd.random() < 0.5
         sc4, tmap4 = build.build_api(ch, coder=CODER10)
         pr4 = Probes(val=make_val(valseed, p_true))
-        it4 = Interpreter(sc4, initial_context=pr4.context(), clock=ticking_clock() if ticking else None)
+        it4 = Interpreter(sc4, initial_context=pr4.context(REF=REF), clock=ticking_clock() if ticking else None)
         seen, late = [], []
 
         def R4(event, time):
